@@ -261,13 +261,20 @@ func (l *LightClientAttackEvidence) GetByzantineValidators(commonVals *Validator
 				continue
 			}
 
+			if i >= len(trusted.Commit.Signatures) {
+				break
+			}
 			sigB := trusted.Commit.Signatures[i]
 			if sigB.Absent() {
 				continue
 			}
 
-			_, val := l.ConflictingBlock.ValidatorSet.GetByAddress(sigA.ValidatorAddress)
-			validators = append(validators, val)
+			// The signature at position i was verified against the validator at position i
+			// (VerifyCommitLight); the address carried by the commit signature is signed by nobody.
+			if i >= len(l.ConflictingBlock.ValidatorSet.Validators) {
+				break
+			}
+			validators = append(validators, l.ConflictingBlock.ValidatorSet.Validators[i])
 		}
 		sort.Sort(ValidatorsByVotingPower(validators))
 		return validators
@@ -361,6 +368,15 @@ func (l *LightClientAttackEvidence) ValidateBasic() error {
 
 	if err := l.ConflictingBlock.ValidateBasic(l.ConflictingBlock.ChainID); err != nil {
 		return fmt.Errorf("invalid conflicting light block: %w", err)
+	}
+
+	// The validators hash covers keys and powers only, while misbehaviour is reported to the
+	// application by address: the addresses in the conflicting validator set must be the keys' own.
+	for i, val := range l.ConflictingBlock.ValidatorSet.Validators {
+		if !bytes.Equal(val.Address, val.PubKey.Address()) {
+			return fmt.Errorf("validator #%d of the conflicting block has address %X, its key has %X",
+				i, val.Address, val.PubKey.Address())
+		}
 	}
 
 	return nil
